@@ -20,7 +20,8 @@ var basePreamble = []string{
 	"(declare-sort Opq 0)",
 	"(declare-fun strlen (Str) (_ BitVec 64))",
 	"(declare-fun strid (Str) Int)",
-	"(declare-fun str_at (Str (_ BitVec 64)) (_ BitVec 8))",
+	"(declare-fun str_bytes (Str) (Array (_ BitVec 64) (_ BitVec 8)))",
+	"(define-fun str_at ((s Str) (i (_ BitVec 64))) (_ BitVec 8) (select (str_bytes s) i))",
 	"(declare-fun str_sub (Str (_ BitVec 64) (_ BitVec 64)) Str)",
 	"(declare-fun str_cat (Str Str) Str)",
 	"(declare-const str_empty Str)",
@@ -145,10 +146,19 @@ func (ex *Exec) runRoot() {
 			ex.emit("(assert " + not(eq(fr.vals[fn.Params[0]].L[0], "0")) + ")")
 		}
 	}
+	var fvRefs []string
 	for _, fv := range fn.FreeVars {
 		v := ex.freshVal("fv."+fv.Name(), fv.Type())
 		fr.vals[fv] = v
 		ex.assumeAllocated(st, v)
+		// captured variables are distinct, existing cells of the enclosing function
+		if len(v.L) == 1 {
+			ex.emit("(assert (> " + v.L[0] + " 0))")
+			for _, o := range fvRefs {
+				ex.emit("(assert " + not(eq(v.L[0], o)) + ")")
+			}
+			fvRefs = append(fvRefs, v.L[0])
+		}
 	}
 	pre := st.clone()
 	ex.preState = pre
@@ -1172,6 +1182,23 @@ func (ex *Exec) loopEnv(fr *Frame, st *State, li *loopInfo) *Env {
 		}
 	}
 	en := ex.newEnv(fr, st, ex.preState, vars)
+	// the hidden index of this range loop
+	if li.head.Comment == "rangeindex.loop" {
+		for _, in := range li.head.Instrs {
+			if u, ok := in.(*ssa.UnOp); ok && u.Op == token.MUL {
+				if a, ok := u.X.(*ssa.Alloc); ok && a.Comment == "rangeindex" {
+					if fr.regs[a] {
+						if v, ok := st.vars[a]; ok {
+							en.vars["rangeindex"] = v
+						}
+					} else if pv, ok := fr.vals[a]; ok {
+						en.vars["rangeindex"] = ex.loadObj(st, a.Type().(*types.Pointer).Elem(), pv.L[0])
+					}
+				}
+				break
+			}
+		}
+	}
 	// resolve locals as of the loop header
 	if len(li.head.Instrs) > 0 {
 		for _, in := range li.head.Instrs {
